@@ -121,7 +121,9 @@ fn build(cfg: &Value) -> Final {
             }
         }
         ("sll", _) => {
-            let b = PacketBuilder::linux_sll(LinuxSllPacketType::OTHERHOST, 6, [1, 2, 3, 4, 5, 6, 0, 0]);
+            // the address length field may exceed the 8 bytes the header holds (e.g. 20 byte InfiniBand addresses): payload lengths 1 and 9
+            let alen = if matches!(cfg["plen"].as_u64(), Some(1) | Some(9)) { 20 } else { 6 };
+            let b = PacketBuilder::linux_sll(LinuxSllPacketType::OTHERHOST, alen, [1, 2, 3, 4, 5, 6, 7, 8]);
             match net {
                 "ipv4" => b.ipv4(SRC4, DST4, TTL),
                 "ipv6" => b.ipv6(SRC6, DST6, TTL),
@@ -152,6 +154,9 @@ fn build(cfg: &Value) -> Final {
             let on = cfg["tcp_opts"].as_u64().unwrap() as usize;
             if on == 12 {
                 t = t.options(&[TcpOptionElement::MaximumSegmentSize(1400), TcpOptionElement::Noop, TcpOptionElement::WindowScale(7), TcpOptionElement::SelectiveAcknowledgementPermitted]).unwrap();
+            } else if on == 28 {
+                // a selective acknowledgement whose blocks do not fill the slots from the front: every block given must be sent
+                t = t.options(&[TcpOptionElement::SelectiveAcknowledgement((1, 2), [None, Some((3, 4)), Some((5, 6))]), TcpOptionElement::Noop]).unwrap();
             } else if on > 0 {
                 t = t.options_raw(&vec![1u8; on]).unwrap();
             }
